@@ -3,8 +3,11 @@
 package session
 
 import (
+	"context"
 	"net"
+	"time"
 
+	"tunnox-core/internal/core/types"
 	"tunnox-core/internal/packet"
 	"tunnox-core/internal/protocol/session/tunnel"
 	"tunnox-core/internal/stream"
@@ -67,4 +70,20 @@ func (s *SessionManager) VerifGetBridge(tunnelID string) *TunnelBridge {
 	s.bridgeLock.RLock()
 	defer s.bridgeLock.RUnlock()
 	return s.tunnelBridges[tunnelID]
+}
+
+// ---- C02 xnode: the target-node side of a cross-node tunnel (forwardToSourceNode + the dedicated data forward)
+
+// VerifNewXnodeTarget: a SessionManager that has exactly what forwardToSourceNode and
+// runCrossNodeDataForwardDedicated use: its node id and either the dedicated-connection manager or the pool.
+func VerifNewXnodeTarget(nodeID string, mgr *TunnelConnectionManager, pool *CrossNodePool) *SessionManager {
+	return &SessionManager{nodeID: nodeID, tunnelConnMgr: mgr, crossNodePool: pool,
+		tunnelBridges: map[string]*TunnelBridge{}, closedTunnels: map[string]time.Time{}}
+}
+
+// VerifForwardToSourceNode runs the real forwardToSourceNode for a target connection whose TunnelOpen has
+// already been acknowledged (ackSent), under the caller's attach context.
+func (s *SessionManager) VerifForwardToSourceNode(ctx context.Context, tunnelID, sourceNode string, conn *types.Connection, netConn net.Conn) error {
+	return s.forwardToSourceNode(ctx, &packet.TunnelOpenRequest{TunnelID: tunnelID}, conn, netConn,
+		&TunnelWaitingState{TunnelID: tunnelID, SourceNodeID: sourceNode}, true)
 }
